@@ -25,6 +25,7 @@ type wgInput struct {
 	Model  *gen.Model `json:"model"`
 	Orders [][]string `json:"orders,omitempty"` // hook orders as reference node ids (non-terminal nodes)
 	Text   string     `json:"text,omitempty"`   // human readable form of the model
+	Prior  *gen.Model `json:"prior_model,omitempty"` // built first with the same builder value (the graph is a function of the model, not of the builder's history)
 }
 
 type wgFinding struct {
@@ -609,6 +610,12 @@ func wgEvaluate(in wgInput, o wgOpts) *wgResult {
 	for i := 0; i < o.RealBuilds; i++ {
 		wg, err := graph.NewWeightedAuthorizationModelGraphBuilder().Build(pm)
 		checkBuild(fmt.Sprintf("Build#%d", i), wg, err)
+	}
+	if in.Prior != nil {
+		b := graph.NewWeightedAuthorizationModelGraphBuilder()
+		_, _ = b.Build(in.Prior.Proto())
+		wg, err := b.Build(pm)
+		checkBuild("Build(with a builder that built another model before)", wg, err)
 	}
 	if wgHooks && len(in.Orders) > 0 && gSpec.Err == "" {
 		for oi, ord := range in.Orders {
